@@ -670,6 +670,102 @@ def r116(an: Analysis, rep, V):
                 config=vname(V))
 
 
+def width_rule(an: Analysis, rep, rule="R11.W", jumps_only=False):
+    """The number of code units an instruction was written with is kept whenever it is not the minimal one: the statements that decide the
+    recorded width are folded over (jump / not a jump) x (1..4 units) x (operand sizes); a redundant EXTENDED_ARG prefix that is dropped makes two
+    different code objects decode to equal data and re-encode to other bytes than were given - silently."""
+    from sa.feval import BlockEval, BlockOutcome, FevalError, Obj
+    rep.rule(rule, "the width of every multi-unit jump is recorded" if jumps_only else
+             "the recorded instruction width is None only when the instruction was written with the minimal number of code units", 1)
+    site = None
+    for f in an.closure("from_code"):
+        for c in ast.walk(f.node):
+            if isinstance(c, ast.Call) and isinstance(c.func, ast.Name) and c.func.id == "Instruction":
+                kw = {k.arg: k.value for k in c.keywords}
+                if "_n_args_override" in kw and not (isinstance(kw["_n_args_override"], ast.Attribute) and kw["_n_args_override"].attr == "_n_args_override"):
+                    site = (f, c, kw["_n_args_override"])  # (a width copied from another instruction is decided where that one was built)
+    if site is None:
+        raise AnalysisError("the decoder's Instruction(..., _n_args_override=...) construction was not found")
+    f, call, wexpr = site
+    from .encode_model import parent_map
+    pm = parent_map(f.module)
+    loop = call
+    while loop is not f.node and not isinstance(loop, ast.For):
+        loop = pm[id(loop)]
+    if not isinstance(loop, ast.For):
+        raise AnalysisError(f"{f.qual}: the instruction is not built inside the loop over the parsed code units")
+    wnames = {n.id for n in ast.walk(wexpr) if isinstance(n, ast.Name)}
+    # the parser's tuple: which loop variable is the unit count, which the operand (R02.8 decides that the parser fills them correctly)
+    from . import c02
+    pf = c02.find_parser(an)
+    y = [n for n in ast.walk(pf.node) if isinstance(n, ast.Yield) and isinstance(n.value, ast.Tuple)][0]
+    _iv, cnt = c02.parser_roles(pf)
+    tnames = [t.id if isinstance(t, ast.Name) else None for t in (loop.target.elts if isinstance(loop.target, ast.Tuple) else [])]
+    if len(tnames) != len(y.value.elts):
+        raise AnalysisError(f"{f.qual}: the loop does not unpack the parser's tuple")
+    pos_cnt = next((i for i, e in enumerate(y.value.elts) if isinstance(e, ast.Name) and e.id == cnt), None)
+    accs = [i for i, e in enumerate(y.value.elts) if isinstance(e, ast.Name) and e.id != cnt and i != 0]
+    if pos_cnt is None or not accs:
+        raise AnalysisError(f"{pf.qual}: unit count / operand positions of the yielded tuple not recognised")
+    n_var, a_var = tnames[pos_cnt], tnames[accs[0]]
+    # statements of the loop body (before the construction) that decide the names the width expression reads
+    stmts = []
+    for st in loop.body:
+        if any(x is call for x in ast.walk(st)):
+            break
+        stores = {n.id for n in ast.walk(st) if isinstance(n, ast.Name) and isinstance(n.ctx, ast.Store)}
+        if stores & wnames:
+            stmts.append(st)
+    jump_tests = [n for st in stmts for n in ast.walk(st) if isinstance(n, ast.Call) and isinstance(n.func, ast.Name) and n.func.id == "isinstance" and len(n.args) == 2
+                  and isinstance(n.args[0], ast.Name) and "Jump" in norm_src(n.args[1])]
+    jvar = jump_tests[0].args[0].id if jump_tests else None
+
+    def resolve(name):
+        r = an.prog.resolve_global(f.module, name, f)
+        return r[1].node if r and r[0] == "func" else None
+
+    def minimal(a):
+        return 1 if a <= 0xFF else 2 if a <= 0xFFFF else 3 if a <= 0xFFFFFF else 4
+    bad = []
+    bad_jump = []
+    n_pts = 0
+    for is_jump in (True, False):
+        for a in (0, 300, 70000):
+            for n in (1, 2, 3, 4):
+                if n < minimal(a):
+                    continue
+                be = BlockEval(resolve, extra={"Jump": "Jump", "isinstance": lambda o, c: isinstance(o, dict) and o.get("__cls__") in (c if isinstance(c, tuple) else (c,))})
+                be.module_assigns = f.module.assigns
+                env = {n_var: n, a_var: a}
+                if jvar:
+                    env[jvar] = Obj({"__cls__": "Jump" if is_jump else "Name", "target": 0, "relative": False})
+                for nm in {x.id for st in stmts for x in ast.walk(st) if isinstance(x, ast.Name) and isinstance(x.ctx, ast.Load)} - set(env) - {"Jump", "isinstance", "None", "True", "False"}:
+                    if resolve(nm) is None and nm not in f.module.assigns:
+                        env.setdefault(nm, set())  # collections the same statements also fill (the set of jump targets)
+                try:
+                    env, _ = be.run_block(stmts, env)
+                    got = be.ev(wexpr, env)
+                except BlockOutcome:
+                    continue
+                except (FevalError, KeyError, TypeError, AttributeError) as ex:
+                    raise AnalysisError(f"{f.qual}: the statements deciding `{norm_src(wexpr)}` are not evaluable ({ex})")
+                n_pts += 1
+                if is_jump and n > 1 and got != n:
+                    bad_jump.append(f"a jump written with {n} code units for operand {a} gets width {got!r}")
+                if n != minimal(a) and got != n:
+                    bad.append(f"{'a jump' if is_jump else 'an instruction that is not a jump'} written with {n} code units for operand {a} (minimal: {minimal(a)}) gets width {got!r}")
+    if jumps_only:
+        rep.add(rule, f"{f.qual}::width of multi-unit jumps is recorded", not bad_jump, loc(f.module, call),
+                "a jump written with more than one code unit keeps its width whatever its operand" if not bad_jump else
+                f"{bad_jump[0]}: whether a prefix is 'needed' depends on the final layout, which is not known while decoding - CPython's peephole pass leaves such prefixes "
+                f"(two jumps that only need two units because the other has two), and the re-encoded co_code comes out shorter")
+        return
+    rep.add(rule, f"{f.qual}::width kept whenever it is not minimal", not bad, loc(f.module, call),
+            f"{n_pts} points (jump / other, 1-4 code units, three operand sizes): a width other than the minimal one is recorded" if not bad else
+            f"{bad[0]}: the redundant EXTENDED_ARG prefix is forgotten, so `EXTENDED_ARG 0; LOAD_CONST 0` decodes exactly like `LOAD_CONST 0` - two different code objects give equal "
+            f"data (as constants of one table they are then treated as one repeated entry), and to_code() writes other bytes than from_code was given, without any exception")
+
+
 def r117(an: Analysis, rep):
     """The decoder rejects argument names on non-function code through the truthiness of Args: that is only a guard if len(args) counts every kind."""
     it, _ = an.interp("from_code")
@@ -797,10 +893,14 @@ def run(an: Analysis, rep):
     rep.run(c09.unreferenced_rules, an, _SR(rep, "R11.U", "table entries no instruction references are all kept in the data (shared with C09's R09.3): otherwise to_code() rebuilds a shorter table and different flags, silently"))
     rep.run(r117, an, rep)
     rep.run(r119, an, rep)
+    rep.run(width_rule, an, rep)
     from .common import SharedRules
     from . import c04
     rep.run(c04.r041, an, SharedRules(rep, "R11.8", "every argument count is stored in the data: the decoded Args determine co_argcount / co_posonlyargcount / co_kwonlyargcount "
                                                   "(shared with C04's R04.1) - otherwise to_code() writes different counts"))
+    from . import c05 as _c05
+    rep.run(_c05.r053, an, SharedRules(rep, "R11.D", "the encoder seeds the docstring slot exactly when the data has a docstring - also the empty one (shared with C05's R05.3): otherwise to_code() silently "
+                                                    "writes other constants than the decoded ones ('never returns silently lossy data')"))
     rep.run(c04.r043, an, SharedRules(rep, "R11.C", "the counts and the VARARGS / VARKEYWORDS flags the encoder writes are those of the decoded parameters, also when a hand-altered code object repeats a "
                                                     "parameter name (shared with C04's R04.3): 'never returns silently lossy data'"), True)
     rep.stats.update(an.stats(interps))
